@@ -3,7 +3,9 @@
    Go code mirrored (read literally), file:line as of the modelled tree:
      cmd/pyscn/check.go   runCheck 122-245, determineEnabledAnalyses 248-265, containsAnalysis 268-280,
                           validateSelectedAnalyses 304-323, checkComplexity 326-388, checkDeadCode 391-464,
-                          checkClones 467-543, checkCircularDependencies 546-603, checkMockdata 606-669
+                          checkClones 468-544, checkCircularDependenciesIn 602-653 (one project root; the loop over the
+                          roots of several targets, checkCircularDependencies 548-558 and dependencyProjectRoots
+                          563-599, is Cli/GateRoots.v), checkMockdata 656-719
      cmd/pyscn/main.go    main: os.Exit(1) when the command returns an error
      service/config_loader.go            MergeConfig 49-113 (MinComplexity / MaxComplexity sentinels)
      service/dead_code_config_loader.go  MergeConfig 49-151 (MinSeverity sentinel), configToRequest 154-214
@@ -265,7 +267,8 @@ Definition check_clones (f : flags) (r : results) : option (Z * list line) :=
   if r_clone_err r then None
   else Some (zlen (r_clones r), if f_quiet f then [] else map LClone (r_clones r)).
 
-(* checkCircularDependencies: TotalCycles = len(CircularDependencies); a line per printable cycle *)
+(* checkCircularDependenciesIn: TotalCycles = len(CircularDependencies); a line per printable cycle.  With several
+   targets [r_cycles] / [r_deps_err] stand for the project roots together (GateRootsProofs.check_circular_roots_merged) *)
 Definition check_circular (f : flags) (r : results) : option (Z * list line) :=
   if r_deps_err r then None
   else match r_cycles r with
